@@ -45,6 +45,8 @@ func Run(r *core.Run) {
 	add(scen.EcKeygen("near-q", 3, 2, r.Seed), "dev", 0)
 	add(scen.EcKeygen("above-q", 3, 1, r.Seed), "dev", 0) // ids q+3, 2q+11, q+19
 	add(scen.EdKeygen("above-q", 3, 1, r.Seed), "", 0)
+	add(scen.EcKeygenNoProofs("small", 2, 1, r.Seed, false, true), "dev", 0) // optional proofs switched off
+	add(scen.EcKeygenNoProofs("near-q", 3, 1, r.Seed, true, true), "dev", 0)
 	add(scen.EcKeygen("multiples", 4, 3, r.Seed), "dev", 0) // t >= 3: the first configuration in which k^3 differs from k^4/2 etc.
 	if r.Tier == "thorough" {
 		add(scen.EdKeygen("large", 4, 2, r.Seed), "dev", 1)
